@@ -240,6 +240,12 @@ def run(body, start_bb, env, call=None, max_steps=400, prog=None, depth=0, inlin
                 else:
                     raise Unrecognised("field projection on %r" % (v,))
                 continue
+            if isinstance(pr, dict) and "ix" in pr and isinstance(v, tuple) and v and v[0] in ("vec", "array", "slice"):
+                ix = env.get(pr["ix"])
+                if isinstance(ix, int) and not isinstance(ix, bool) and 0 <= ix < len(v[1]):
+                    v = v[1][ix]
+                    continue
+                raise Unrecognised("PANIC: index %r out of the known elements of %r" % (ix, v))
             if isinstance(pr, dict) and "ci" in pr and isinstance(v, tuple) and v and v[0] == "slice" and not pr.get("from_end"):
                 if pr["ci"] < len(v[1]):
                     v = v[1][pr["ci"]]
@@ -316,7 +322,7 @@ def run(body, start_bb, env, call=None, max_steps=400, prog=None, depth=0, inlin
                 src_ = rv["op"].get("move") or rv["op"].get("copy")
                 if src_ is not None and not src_["p"] and src_["l"] in mutrefs and not lhs["p"]:
                     mutrefs[lhs["l"]] = mutrefs[src_["l"]]
-            elif k in ("ref", "copyderef"):
+            elif k in ("ref", "copyderef", "rawptr"):
                 v = place_val(rv["place"])
                 if k == "ref" and rv.get("mut") and not lhs["p"]:
                     pl_ = rv["place"]
@@ -358,6 +364,8 @@ def run(body, start_bb, env, call=None, max_steps=400, prog=None, depth=0, inlin
                 a = operand(rv["a"])
                 if isinstance(a, tuple) and a and a[0] == "slice":
                     v = len(a[1]) if a[2] is None else ("atleast", len(a[1]))
+                elif isinstance(a, tuple) and a and a[0] in ("vec", "array"):
+                    v = len(a[1])
                 else:
                     raise Unrecognised("length of %r" % (a,))
             elif k == "unop":
@@ -418,7 +426,16 @@ def run(body, start_bb, env, call=None, max_steps=400, prog=None, depth=0, inlin
                     old_ = env.get(tgt_)
                     if isinstance(old_, tuple) and old_[:1] in (("vec",), ("split",), ("chain",), ("once",), ("map",)):
                         add_ = ("once", args[1]) if name.split("::")[-1] == "push" else args[1]
-                        if old_[0] == "vec" and name.split("::")[-1] == "push":
+                        if name.split("::")[-1] == "extend" and call is not None:
+                            m_ = call("__materialize__", [args[1]], t)     # a rule's own iterator model may turn it into a concrete vector
+                            if m_ is not None:
+                                add_ = m_
+                        if old_[0] == "vec" and isinstance(add_, tuple) and add_[:1] == ("vec",) and name.split("::")[-1] == "extend":
+                            env[tgt_] = ("vec", tuple(old_[1]) + tuple(add_[1]))
+                            add_ = None
+                        if add_ is None:
+                            pass
+                        elif old_[0] == "vec" and name.split("::")[-1] == "push":
                             env[tgt_] = ("vec", tuple(old_[1]) + (args[1],))
                         elif old_ == ("vec", ()):
                             env[tgt_] = add_
@@ -453,5 +470,14 @@ def run(body, start_bb, env, call=None, max_steps=400, prog=None, depth=0, inlin
             bb = t["target"]
         elif k == "drop":
             bb = t["target"]
+        elif k == "assert":
+            c_ = operand(t["cond"]) if "cond" in t else None
+            exp_ = t.get("expected", True)
+            if isinstance(c_, (bool, int)) and bool(c_) == bool(exp_):
+                bb = t["target"]
+            elif isinstance(c_, (bool, int)):
+                raise Unrecognised("PANIC: assertion failed (%s)" % t.get("msg", "bounds / overflow check"))
+            else:
+                raise Unrecognised("assert on a non-concrete condition %r" % (c_,))
         else:
             raise Unrecognised("terminator %s" % k)
